@@ -457,7 +457,7 @@ func runCheck(id, tier string) int {
 		// confirmation through the plain executable
 		confirm := map[string]interface{}{}
 		if v.Replay.CLI && (v.Replay.Mode == "file" || v.Replay.Mode == "repl" || v.Replay.Mode == "args") {
-			to := 60 * time.Second
+			to := 20 * time.Second
 			if strings.Contains(sig, "|diverged") {
 				to = 10 * time.Second // expected to run until killed
 			}
